@@ -38,6 +38,8 @@ static RunPlan gen_parityinv(uint64_t seed, int tier)
 	for (int r = 0; r < rounds; ++r) {
 		if (r > 0)
 			for (auto& o : gen_mutations(rng, p.cfg, (int)rng.range(1, 6))) p.ops.push_back(o);
+		if (rng.chance(1, 3))
+			for (auto& o : gen_idiom(rng, p.cfg, r)) p.ops.push_back(o);
 		if (rng.chance(1, 3)) p.ops.push_back(Json::obj().set("k", "clock").set("adv", rng.range(1, 40) * 86400));
 		CmdSpec s;
 		switch (rng.below(10)) {
